@@ -19,7 +19,8 @@ RULE = ("Distribution specs of every kind (dict, uniform, deterministic, softmax
         "an exact-Fraction twin; owned random streams (incl. 0.0, 1-2^-53 and cumulative-weight boundaries) and "
         "integer seeds for sampling. Non-trivial: >=3 events and (zero entry or projection collision or two kinds "
         "mixed) for the calculus; >=2 positive events for sampling; distinct by spec hash."
-        ' Also: unscaled mixtures with every kind on either side, likelihood values of type float32 / float64 / Fraction / numpy int, Fraction and int softmax scores shifted by 1e10..1e18.')
+        ' Also: unscaled mixtures with every kind on either side, likelihood values of type float32 / float64 / Fraction / numpy int, Fraction and int softmax scores shifted by 1e10..1e18.'
+        ' One draw and k draws from unnormalised measures.')
 ASSUMPTIONS = ["floats are compared with exact rationals at 1e-12 relative to the measure's scale (1e-10 for the "
                "log-space conjunction and softmax)", "undefined cases (conditioning / conjunction with zero mass, "
                "normalising a zero measure) are skipped and counted"]
